@@ -13,6 +13,12 @@ and within a run (``note_reading``).  The groups ``rotate-family`` and
 ``conversions-handed`` apply left- and right-handed descriptions (of the vector
 set and of the unit cell) to one crystal and compare the results with one another
 (``same_crystal_pair``), which does not depend on the reading at all.
+
+Round 4: ``conversions-options`` (option profiles x motif classes x call paths x
+construction paths of the two dump styles), ``conversion-refusals`` and
+``histories`` (kept result / scribbled result / other instance / edited argument
+objects / edited system / repeated call, for all four entry points); ``judge``
+also carries a precision clause (float64 rounding, not only the matching distance).
 """
 from __future__ import annotations
 
@@ -46,8 +52,22 @@ RULE = ('unit cells: 9 cell kinds (7 crystal families, strongly tilted, arbitrar
         'coprime strides) whose results are compared with one another.  Conversions: all 22 (setting, basis, family) combinations of '
         'p,i,f,a,b,c,t1,t2,t with a compatible family, both dump styles, both round trips, primitive input in raw and arbitrarily '
         'rotated orientation, and right- plus left-handed descriptions of one conventional / primitive cell on all five origin '
-        'classes.  Non-trivial = the call changes the cell (replication > 1, vectors not the identity, setting not p); distinct = '
-        'distinct fingerprint of (cell, atoms, argument).')
+        'classes.  Conversion OPTIONS (round 4): the 22 combinations + 9 centred cells of non-conventional families x 5 motif classes '
+        '(atom on the lattice point / generic / atoms on faces / one atom 1e-4 cell vectors off the lattice point / simple fractions '
+        '- four of them WITHOUT an atom on the lattice point) x 7 option profiles of conventional_to_primitive (check_basis on/off, '
+        'check_family on/off, caller-chosen smallshift in 5 argument forms, loosened rtol/atol of the basis check), so that the '
+        'generic request t also arrives with the basis check off on obverse and reverse cells; 3 call paths (System.dump, am.dump, the '
+        'style function with positional setting), 4 construction paths (direct, deepcopy, data-model round trip, a trailing '
+        'unpopulated type; for supersize/rotate also float32 positions), each call repeated without return_transform.  Conversion '
+        'REFUSALS: primitive motif / different types on the centring sites under every centred setting, smallshift not a 3-vector, '
+        'setting names that do not exist (both styles, check on and off).  HISTORIES of all four entry points: first result kept; '
+        'then the caller scribbles over it / another instance is processed with customised options / the argument objects are edited '
+        'in place and reused / the system is edited in place and reused; the kept result is re-read, the input re-compared, the first '
+        'call repeated on a fresh equal system; rotate gets 7 further argument forms (tuple, int8/int16/float32 arrays, list of rows, '
+        'Fortran floats) and its tol option (float, list, tuple, array).  NEAR-FACE LADDER: one atom image 1.02..1.08e-4, 1.1..1.9e-5 '
+        'and 1.5..9.5e-6 (relative) below three faces of the NEW cell, cyclic axis permutations and sampled vector sets of either '
+        'handedness.  Non-trivial = the call changes the cell (replication > 1, '
+        'vectors not the identity, setting not p); distinct = distinct fingerprint of (cell, atoms, argument).')
 ASSUMPTIONS = ['cells are well conditioned (volume >= 10 % of abc), right-handed or a left-handed description of a right-handed one '
                '(cell vectors reversed, corner moved, atoms inside); atoms of one cell are at least 0.12 x the shortest cell vector apart',
                'matched positions are compared with the bound 1e-6 x longest original cell vector; "inside" is judged in '
@@ -66,15 +86,36 @@ ASSUMPTIONS = ['cells are well conditioned (volume >= 10 % of abc), right-handed
                'refusal; it occurs for c2p(p2c(x)) when x has a non-zero origin and is counted, not failed',
                'entries beyond [-1,1] are a seeded sample, not an enumeration (all of [-2,2] would be 1.9 million calls); '
                'conversions use cells of ordinary size (the style adds an absolute 0.001 shift)',
+               'precision clause: besides matching within 1e-6 x the cell, matched atoms must agree to 500 eps x largest coordinate '
+               'handled x (cond(old cell) + cond(new cell)); the rigid (common) part of the displacement of a conventional_to_primitive '
+               'step may in addition be up to 1e-8 (numpy.isclose default atol: the style moves an atom found that near its periodic '
+               'origin exactly onto it, the crystal with it).  Unchanged tree: all ratios < 100 on quick seeds 0-3',
+               'conventional_to_primitive with the basis check ON may refuse any cell without an atom of one type on every lattice '
+               'point (documented); with the check OFF and setting t it may refuse (nothing resolves t) - a result, if one is returned, '
+               'is judged like any other; centred cells of non-conventional families (check_family=False) are in the quantifier '
+               '("every centering setting with a compatible cell": the centring translations are closed modulo any cell)',
+               'a caller-chosen smallshift has three non-zero components of 2e-4..8e-3 (either sign); a zero component would leave '
+               'face atoms on the boundary the shift exists to avoid',
+               'rotate with a caller-chosen tol list may refuse with "Filtering failed" (documented); float32 positions are used for '
+               'supersize/rotate only (they break the centring of a centred cell at the 1e-7 level)',
+               'staged finding rotate:near-face:asymmetric-rounding:filtering-failed (KNOWN_FINDINGS.d/C04.json): a "Filtering failed" '
+               'refusal of rotate with its default tolerance ladder gets that key only if the failing call had, on EVERY ladder level '
+               'atol, an atom image between atol and atol + 1e-5 below a face of the new cell (the window in which numpy.isclose\'s '
+               'default rtol rounds onto the upper face only); any other "Filtering failed" is an ordinary violation',
+               'the same call on an equal system must return the same value to 64 eps x largest coordinate (integer properties, '
+               'symbols, counts identical) whatever happened in between',
                'oracle shares numpy/LAPACK with the code under test']
 
 CONFIG = {'quick': dict(shards=8, seeds=1, timeout=900),
           'thorough': dict(shards=16, seeds=3, timeout=3000)}
 
 N_ENUM1 = 11808
+EPS = float(np.finfo(float).eps)
+C2P_SNAP = 1.0000001e-8   # numpy.isclose default atol: conventional_to_primitive's 'atom near periodic (0,0,0)' threshold
+PREC = 500.0          # matched positions agree to PREC x eps x largest coordinate x cond(cell)  (see judge)
 BIG = 6000            # result atoms above which the crystal comparison of an *internal* supersize call is skipped
 
-STATE = {'chain': [], 'cls': None, 'readings': [], 'ledger': {}, 'hand': None}
+STATE = {'chain': [], 'cls': None, 'readings': [], 'ledger': {}, 'hand': None, 'refused': None, 'rotate_failure': None}
 EXCLUSIVE = ('absolute-only', 'cell-corner-only')
 
 
@@ -133,13 +174,13 @@ def as_cell(snap, keys):
     return X.Cell(snap['vects'], snap['origin'], np.asarray(snap['props']['pos'], float), labels)
 
 
-def build_system(am, u):
+def build_system(am, u, posdtype=None):
     box = am.Box(vects=np.array(u['vects']), origin=np.array(u['origin']))
     vec = np.array(u['vec'], float)
     # a non-symmetric per-atom tensor (two trailing dimensions) that differs between atoms: replication code that
     # tiles rank-1/2 properties correctly can still mis-order rank-3 ones (seeded change C04-2)
     ten = np.einsum('ni,nj->nij', vec, np.roll(vec, 1, axis=1)) + np.asarray(u['idn'], float)[:, None, None]
-    atoms = am.Atoms(atype=np.array(u['atype']), pos=np.array(u['pos']), idn=np.array(u['idn']), vec=vec, ten=ten,
+    atoms = am.Atoms(atype=np.array(u['atype']), pos=np.array(u['pos'], dtype=posdtype), idn=np.array(u['idn']), vec=vec, ten=ten,
                      safecopy=True)
     return am.System(atoms=atoms, box=box, pbc=(True, True, True), symbols=u['symbols'])
 
@@ -155,13 +196,17 @@ def compare_auto(oc, rc, T, anchor, tol, rec, key=''):
     can tell the readings apart (cell corner not on a lattice point) never disagree - not between the vector sets
     applied to one unit cell, not between left- and right-handed descriptions, not between the calls of a run."""
     if anchor != 'auto':
-        return X.compare(oc, rc, T=T, anchor=anchor, tol=tol)
+        rep = X.compare(oc, rc, T=T, anchor=anchor, tol=tol)
+        rep.anchor = anchor
+        return rep
     rep = X.compare(oc, rc, T=T, anchor='absolute', tol=tol)
+    rep.anchor = 'absolute'
     if not np.any(oc.origin) and not np.any(rc.origin):
         rec.count('anchor:readings-identical')
         note_reading(rec, 'both', key)
         return rep
     rep2 = X.compare(oc, rc, T=T, anchor='origin', tol=tol)
+    rep2.anchor = 'origin'
     cls = {(True, True): 'both', (True, False): 'absolute-only', (False, True): 'cell-corner-only',
            (False, False): 'neither'}[(rep.same, rep2.same)]
     rec.count('anchor:' + cls)
@@ -252,6 +297,32 @@ def judge(rec, key, what, old, res, T, anchor, n_expected, M_candidates=None, la
                   M=rep.M, requested=M_candidates[0], input=inp, **d)
     rec.check(rep.matched_ok, f'{what}: every result atom maps (inverse rotation, modulo the original lattice) onto an original atom',
               key + ':match', report=s, input=inp, T=T, **d)
+    if rep.matched_ok and rep.residual is not None and len(rep.residual):
+        # precision: the matched atoms coincide to float64 rounding of the re-expression (a few hundred eps x the
+        # largest coordinate handled x the conditioning of the old plus that of the new cell), not merely within the
+        # matching distance.  The displacement of the result atoms from their sites is split into its common part (a rigid
+        # shift) and the rest: conventional_to_primitive moves an atom that it finds within numpy.isclose's default 1e-8 of
+        # its periodic origin exactly onto the origin, the whole crystal with it - that internal threshold is allowed for
+        # the rigid part of a c2p step, nothing else is.
+        xb = X.back_map(rc, oc, T, getattr(rep, 'anchor', anchor if anchor != 'auto' else 'absolute'))[0]
+        rv = xb - (oc.pos[rep.site] + rep.offset @ oc.vects)
+        tshift = rv.mean(axis=0)
+        spread = float(np.linalg.norm(rv - tshift, axis=1).max())
+        rigid = float(np.linalg.norm(tshift))
+        mag = max(np.abs(old['props']['pos']).max(), np.abs(old['origin']).max(), np.abs(new['props']['pos']).max(),
+                  np.abs(new['origin']).max(), np.abs(new['vects']).max(), L)
+        kappa = float(np.linalg.cond(old['vects']) + np.linalg.cond(new['vects']))
+        unit = EPS * mag * kappa
+        snap = C2P_SNAP if key in ('c2p', 'roundtrip:c2p-p2c', 'roundtrip:p2c-c2p') else 0.0
+        ratio = max(spread, rigid - snap) / unit
+        rec.count('precision:judged')
+        rec.count('precision:ratio' + ('<1' if ratio < 1 else '<10' if ratio < 10 else '<30' if ratio < 30 else '<100' if ratio < 100
+                                        else '<250' if ratio < 250 else '<PREC' if ratio <= PREC else '>PREC'))
+        if snap and rigid > PREC * unit:
+            rec.count('precision:c2p-snap-allowance-used')
+        rec.check(ratio <= PREC, f'{what}: result atoms lie on the original atoms to float64 rounding ({PREC:g} eps x largest coordinate x '
+                  'condition numbers of the two cells), no single-precision / rounded-to-digits intermediate', key + ':precision',
+                  spread=spread, rigid_shift=rigid, snap_allowance=snap, bound=PREC * unit, ratio=ratio, mag=mag, cond=kappa, **d)
     rec.check(rep.labels_ok, f'{what}: the matched original atom has the same type and per-atom property values',
               key + ':labels', report=s, **d)
     rec.check(rep.multiplicity_ok, f'{what}: every original atom is represented equally often', key + ':multiplicity', report=s, **d)
@@ -266,6 +337,28 @@ def judge(rec, key, what, old, res, T, anchor, n_expected, M_candidates=None, la
 
 
 KNOWN_ORIGIN_KEY = 'rotate:origin-offset:filtering-failed'
+# staged finding (round 4): rotate rounds new-cell relative coordinates with numpy.isclose(spos, 1.0, atol=atol), whose default
+# rtol adds 1e-5 to the window on the UPPER face only.  An atom image between atol and atol + 1e-5 below a face is moved onto the
+# upper face (dropped) while its periodic image the same distance below the lower face is not moved onto it (dropped too).
+KNOWN_ROUNDING_KEY = 'rotate:near-face:asymmetric-rounding:filtering-failed'
+LADDER = (1e-4, 1e-5, 1e-6, 1e-7)            # rotate's default tol list
+ISCLOSE_RTOL = 1e-5
+
+
+def asymmetric_rounding_class(old, M):
+    """Input class of KNOWN_ROUNDING_KEY: on EVERY level of rotate's default tolerance ladder some atom image has a relative
+    coordinate (new cell) between atol and atol + 1e-5 below a face.  ``old``: snapshot of the input, M: integer vector set."""
+    M = np.asarray(M, float)
+    n = int(round(abs(np.linalg.det(M))))
+    if n < 1 or n > 64:
+        return False
+    N = M @ old['vects']
+    g = np.arange(n)
+    t = np.array(np.meshgrid(g, g, g, indexing='ij')).reshape(3, -1).T @ old['vects']          # covers every coset of the new lattice
+    x = (np.asarray(old['props']['pos'], float) - old['origin'])[:, None, :] + t[None, :, :]
+    sc = np.linalg.solve(N.T, x.reshape(-1, 3).T).T
+    below = 1.0 - (sc - np.floor(sc))                           # distance below the next face, in (0, 1]
+    return all(bool(np.any((below > a) & (below < a + ISCLOSE_RTOL))) for a in LADDER)
 
 
 def origin_offset(vects, origin):
@@ -275,23 +368,36 @@ def origin_offset(vects, origin):
     return bool(np.any(s0 < -1 + 1e-9) or np.any(s0 >= 1 - 1e-9))
 
 
-def attempt(rec, clause, key, fn, offset=False, chain=None, basis_refusal_ok=False):
+def attempt(rec, clause, key, fn, offset=False, chain=None, basis_refusal_ok=False, refusals=()):
     """Call the real code; an escaping exception refutes ``clause`` (recorded, not raised).
     ``offset``: the input is in the class of the known origin-offset finding.
     ``basis_refusal_ok``: conventional_to_primitive's documented refusal of a cell without an
-    atom on its corner lattice point is accepted (and counted)."""
+    atom on its corner lattice point is accepted (and counted).
+    ``refusals``: further documented refusals (exception type, text in the message, name); an accepted one is counted
+    under ``refused:<name>`` and STATE['refused'] names it."""
     import traceback
+    STATE['refused'] = None
+    STATE['rotate_failure'] = None
     try:
         with (entry(chain) if chain else contextlib.nullcontext()):
             return fn()
     except (KeyboardInterrupt, SystemExit, MemoryError):
         raise
     except Exception as e:
+        for et, text, name in refusals:
+            if isinstance(e, et) and text in str(e):
+                rec.refusal(f'{name}:{type(e).__name__}')
+                rec.count('refused:' + name)
+                STATE['refused'] = name
+                return None
         if basis_refusal_ok and isinstance(e, ValueError) and 'do not seem to match' in str(e):
             rec.refusal('c2p: no atom on the corner lattice point of the cell (check_basis):ValueError')
             return None
         k = key
-        if offset and isinstance(e, ValueError) and 'Filtering failed' in str(e):
+        if isinstance(e, ValueError) and 'Filtering failed' in str(e) and STATE.get('rotate_failure') == KNOWN_ROUNDING_KEY:
+            k = KNOWN_ROUNDING_KEY                  # the failing rotate call (monitor) had an input of the staged finding's class
+            rec.count('known:rotate-asymmetric-rounding')
+        elif offset and isinstance(e, ValueError) and 'Filtering failed' in str(e):
             k = KNOWN_ORIGIN_KEY
             rec.count('known:rotate-origin-offset')
         rec.fail(clause + ':exception', k, exception=f'{type(e).__name__}: {e}', cls=STATE['cls'],
@@ -376,6 +482,14 @@ def install_monitors(rec, am):
     def post_rotate(args, kwargs, result, exc, old):
         key = chain_key()
         STATE['chain'].pop()
+        if exc is not None and isinstance(old, dict) and isinstance(exc, ValueError) and 'Filtering failed' in str(exc):
+            # default tolerance ladder only: is the input in the class of the staged asymmetric-rounding finding?
+            tol_ = args[2] if len(args) > 2 else kwargs.get('tol')
+            cands_ = parse_uvws(args[1] if len(args) > 1 else kwargs.get('uvws'))
+            if tol_ is None and cands_ is not None:
+                hit = any(asymmetric_rounding_class(old, Mc) for Mc in cands_[:2])
+                STATE['rotate_failure'] = KNOWN_ROUNDING_KEY if hit else None
+                rec.count('monitor:rotate:filtering-failed:' + ('asymmetric-rounding-class' if hit else 'other'))
         if exc is not None or not isinstance(old, dict):
             return
         self = args[0]
@@ -427,6 +541,180 @@ def install_monitors(rec, am):
 
     monitor.observe(System, 'supersize', post_supersize, pre('supersize'))
     monitor.observe(System, 'rotate', post_rotate, pre('rotate'))
+
+
+# ------------------------------------------------------------------------------------------------
+# conversions: option combinations, call paths, construction paths, call histories (round 4)
+# ------------------------------------------------------------------------------------------------
+STYLE = {'c2p': 'conventional_to_primitive', 'p2c': 'primitive_to_conventional'}
+PATHS = ('method', 'am.dump', 'style-function')
+# option profiles of conventional_to_primitive (crossed with the motif classes: whether the basis check can pass)
+C2P_OPTS = ('basis-off', 'basis-off+family-off', 'default', 'basis-off+smallshift', 'family-off', 'loose-atol', 'default+smallshift')
+SHIFT_FORMS = ('list', 'tuple', 'float-array', 'mixed-sign-array', 'int-free-list')
+CONSTRUCT = ('direct', 'deepcopy', 'model', 'extra-symbol')
+# supersize / rotate only: positions handed over (and kept by atomman) in single precision - the crystal is the one with those
+# float32 coordinates, the result must hold it to float64 rounding.  (Not for the conversions: rounding the positions of a
+# centred cell to float32 breaks its centring at the 1e-7 level.)
+CONSTRUCT5 = CONSTRUCT + ('float32-positions',)
+# documented / accepted refusals of the two styles
+REFUSE_BASIS = (ValueError, 'do not seem to match', 'c2p: basis check (no atom on the lattice point / family not in the style\'s list)')
+REFUSE_T = (ValueError, 'Unknown lattice setting', 'c2p: generic setting t not resolved without the basis check')
+
+
+def gen_smallshift(rng, form):
+    """A small rigid shift (Cartesian, absolute) in one of the accepted argument forms; every component is
+    non-zero (a zero component would leave face atoms on the boundary the shift exists to avoid)."""
+    v = rng.uniform(2e-4, 8e-3, 3)
+    if form == 'list':
+        return [float(x) for x in v]
+    if form == 'tuple':
+        return tuple(float(x) for x in v)
+    if form == 'float-array':
+        return np.array(v)
+    if form == 'mixed-sign-array':
+        return np.array(v) * np.array([-1.0, 1.0, -1.0])[rng.permutation(3)]
+    return [1e-3 * int(k) for k in rng.integers(1, 6, 3)]
+
+
+def c2p_kwargs(rng, opts, conv, i):
+    lmin = np.linalg.norm(conv['vects'], axis=1).min()
+    kw = {}
+    if opts.startswith('basis-off'):
+        kw['check_basis'] = False
+    if 'family-off' in opts:
+        kw['check_family'] = False
+    if 'smallshift' in opts:
+        kw['smallshift'] = gen_smallshift(rng, SHIFT_FORMS[(i // 7) % len(SHIFT_FORMS)])
+    if opts == 'loose-atol':
+        # the basis check is told to accept atoms within 3e-4 x the shortest cell vector of a lattice point (the
+        # 'near-corner' motif passes it); it is a tolerance of the CHECK, the crystal must come back unmoved
+        kw['atol'] = 3e-4 * lmin
+        kw['rtol'] = 1e-5
+        kw['check_family'] = False
+    return kw
+
+
+def construct(am, u, how):
+    """The system of cell ``u`` made along one of the construction paths."""
+    import copy
+    if how == 'extra-symbol':                  # a trailing declared-but-unpopulated type
+        u = dict(u, symbols=tuple(u['symbols']) + ('W',))
+    s = build_system(am, u, np.float32 if how == 'float32-positions' else None)
+    if how == 'deepcopy':
+        s = copy.deepcopy(s)
+    elif how == 'model':
+        s = am.load('system_model', s.dump('system_model'))
+    return s
+
+
+def call_style(am, style, s, path, kw):
+    name = STYLE[style]
+    if path == 'method':
+        return s.dump(name, **kw)
+    if path == 'am.dump':
+        return am.dump(name, s, **kw)
+    import importlib
+    kw = dict(kw)
+    setting = kw.pop('setting')
+    return importlib.import_module('atomman.dump.' + name).dump(s, setting, **kw)          # setting positional
+
+
+def convert(rec, am, style, s, setting, mult, kw, path='method', dd=None, refusals=(), offset=False, M_candidates=None,
+            roundtrip=None):
+    """One judged conversion.  Returns (result, T, snapshot of the input) or None (refused / failed, recorded).
+    ``roundtrip`` = (snapshot of the cell the chain started from, rotation so far, key, what): the result is also judged
+    as that cell itself (undo clause)."""
+    before = snapshot(s)
+    shift = kw.get('smallshift')
+    shift0 = None if shift is None else np.array(shift, float)
+    kws = dict(kw, setting=setting, return_transform=True)
+    out = attempt(rec, f'{STYLE[style]} accepts a compatible cell (setting {setting}, options {sorted(kw)})', style + ':exception',
+                  lambda: call_style(am, style, s, path, kws), offset=offset, chain=style, refusals=refusals)
+    if out is None:
+        return None
+    ok = isinstance(out, tuple) and len(out) == 2
+    rec.check(ok, f'{STYLE[style]}: return_transform=True returns (system, transform)', style + ':return')
+    if not ok:
+        return None
+    res, T = out[0], np.asarray(out[1], float)
+    rec.count('monitor:' + style)
+    diff = unmodified(before, snapshot(s))
+    rec.check(diff is None, f'{STYLE[style]}: the input system is not modified', style + ':input-modified', diff=diff, **(dd or {}))
+    if shift0 is not None:
+        rec.check(np.array_equal(np.array(shift, float), shift0), 'conventional_to_primitive: the smallshift argument is not modified',
+                  'c2p:argument-modified', before=shift0, after=shift)
+    judge(rec, style, STYLE[style], before, res, T, 'auto', (1.0 / mult) if style == 'c2p' else float(mult), M_candidates,
+          lammps=True, detail=dd)
+    if roundtrip is not None:
+        first, T0, key, what = roundtrip
+        rec.count('monitor:' + key.replace(':', '-', 1))
+        judge(rec, key, what, first, res, T @ T0, 'auto', 1.0, [np.eye(3)], lammps=True, detail=dd)
+    return res, T, before
+
+
+def arrays_of(sysobj, T=None):
+    out = {'atoms.' + k: sysobj.atoms.view[k] for k in sysobj.atoms_prop()}
+    if T is not None:
+        out['transform'] = T
+    return out
+
+
+def no_aliasing(rec, key, what, res, T, owners, **d):
+    """No array handed back (per-atom arrays of the result, the transformation) shares memory with an array of the
+    input system or of the caller's arguments."""
+    mine = arrays_of(res, T)
+    shared = []
+    for n1, a1 in mine.items():
+        if not isinstance(a1, np.ndarray):
+            continue
+        for n2, a2 in owners.items():
+            if isinstance(a2, np.ndarray) and np.shares_memory(a1, a2):
+                shared.append((n1, n2))
+    rec.count('alias:checked:' + key.split(':')[0])
+    rec.check(not shared, f'{what}: the result shares no memory with the input system or the arguments', key + ':aliasing', shared=shared[:4], **d)
+
+
+def same_result(rec, key, what, a, b, Ta=None, Tb=None, **d):
+    """Two snapshots of results that must be THE SAME VALUE (same call repeated / an earlier result looked at again):
+    identical counts, symbols, keys, integer properties; floats to 64 eps x the largest coordinate."""
+    rec.count('same:' + key)
+    for k in ('natoms', 'pbc', 'symbols', 'keys'):
+        if a[k] != b[k]:
+            rec.fail(what, key, why=f'{k}: {a[k]} vs {b[k]}', **d)
+            return
+    mag = max(np.abs(a['vects']).max(), np.abs(a['origin']).max(), np.abs(a['props']['pos']).max(), 1e-300)
+    bound = 64 * EPS * mag
+    worst = max(np.abs(a['vects'] - b['vects']).max(), np.abs(a['origin'] - b['origin']).max())
+    why = None
+    for k in a['keys']:
+        x, y = a['props'][k], b['props'][k]
+        if x.shape != y.shape or x.dtype != y.dtype:
+            why = f'per-atom property {k}: shape/dtype {x.shape}/{x.dtype} vs {y.shape}/{y.dtype}'
+            break
+        if k == 'pos':
+            worst = max(worst, np.abs(x - y).max(initial=0.0))
+        elif not np.array_equal(x, y):
+            why = f'per-atom property {k} differs'
+            break
+    if why is None and worst > bound:
+        why = f'cell / positions differ by {worst:.3g} (bound {bound:.3g})'
+    if why is None and Ta is not None:
+        dT = np.abs(np.asarray(Ta, float) - np.asarray(Tb, float)).max()
+        if dT > 64 * EPS:
+            why = f'transformation differs by {dT:.3g}'
+    rec.check(why is None, what, key, why=why, **d)
+
+
+def scribble(res, T):
+    """Overwrite everything a caller can reach in a result in place."""
+    for k in res.atoms_prop():
+        a = res.atoms.view[k]
+        if a.dtype.kind in 'iu':
+            a[...] = 1 if k == 'atype' else -7
+        else:
+            a[...] = a * -3.0 + 11.0
+    if T is not None and isinstance(T, np.ndarray) and T.flags.writeable:
+        T[...] = 0.0
 
 
 # ------------------------------------------------------------------------------------------------
@@ -751,6 +1039,40 @@ def run(ctx):
         end_case(rec, 'rotate:family')
         STATE['cls'] = None
 
+    # -- 4c. rotate: an atom at three different small distances below the faces of the NEW cell -----------
+    # one atom image sits 1.02..1.08e-4, 1.1..1.9e-5 and 1.5..9.5e-6 (relative, new cell) below three faces of the re-oriented
+    # cell: every level of the tolerance ladder (1e-4 .. 1e-7) meets a coordinate that is neither within it nor clear of it by the
+    # rounding slack.  (Found by the thorough tier of round 4 through primitive_to_conventional; staged finding KNOWN_ROUNDING_KEY.)
+    for i in ctx.cases('rotate-near-face-ladder', ctx.pick(36, 180)):
+        rng = ctx.rng
+        begin_case()
+        kind = cells.KINDS[i % 9]
+        u = gen.gen_unit_cell(rng, kind, NEAR0[(i // 2) % 2], 1.0, 1 + i % 3, 1 + i % 2, 'generic')
+        if i % 3 == 0:
+            M = np.array([[[0, 1, 0], [0, 0, 1], [1, 0, 0]], [[0, 0, 1], [1, 0, 0], [0, 1, 0]]][(i // 3) % 2])
+        else:
+            M = gen.sample_matrix(rng, 1 + (i // 3) % 2, 1 if (i // 6) % 2 == 0 else -1, max_det=8)
+        dist = np.array([rng.uniform(1.02e-4, 1.08e-4), rng.uniform(1.1e-5, 1.9e-5), rng.uniform(1.5e-6, 9.5e-6)])[
+            [[0, 1, 2], [1, 2, 0], [2, 0, 1], [0, 2, 1], [2, 1, 0], [1, 0, 2]][i % 6]]
+        N = M @ u['vects']
+        x = (1.0 - dist) @ N                                           # relative to the cell corner
+        rel = np.array(u['rel'], float)
+        r0 = np.linalg.solve(np.asarray(u['vects'], float).T, x)
+        rel[0] = r0 - np.floor(r0)
+        u = dict(u, rel=rel, pos=u['origin'] + rel @ u['vects'])
+        inclass = asymmetric_rounding_class(dict(vects=u['vects'], origin=u['origin'], props=dict(pos=u['pos'])), M)
+        rec.case(('rotate-near-face-ladder', kind, 'lh' if gen.det3(M) < 0 else 'rh', u['origin_class']), nontrivial=True,
+                 fp=fingerprint(u['vects'], u['origin'], u['pos'], M))
+        rec.count('class:rotate-near-face-ladder')
+        rec.count('class:rotate-near-face-ladder:' + ('in-class' if inclass else 'not-in-class'))
+        rec.count('class:rotate-lefthanded' if gen.det3(M) < 0 else 'class:rotate-righthanded')
+        if i < 4:
+            rec.sample(dict(entry='rotate', cls='near-face-ladder', cell=kind, vects=u['vects'], origin=u['origin'], rel=u['rel'], uvws=M,
+                            below_new_faces=dist))
+        out = do_rotate(rec, am, u, M, 'near-face-ladder', 'rotate:exception:near-face-ladder')
+        rec.count('near-face-ladder:' + ('returned' if out is not None else 'failed'))
+        end_case(rec, 'rotate')
+
     # -- 5. rotate: documented refusals -----------------------------------------------------------------
     for i in ctx.cases('rotate-refusals', ctx.pick(60, 300)):
         rng = ctx.rng
@@ -948,6 +1270,357 @@ def run(ctx):
         end_case(rec, 'conversion')
         STATE['cls'] = None
 
+    # -- 6c. conversions: option combinations x motif classes x call paths x construction paths -----------
+    # conventional_to_primitive documents check_basis=False for "complex unit cells where no atoms are at the lattice
+    # site [0, 0, 0]", check_family=False for centred cells of other families, a caller-chosen smallshift and the
+    # tolerances of its basis check.  Every row of the conversion table (+ 9 centred cells of non-conventional families)
+    # is crossed with 5 motif classes (4 of them WITHOUT an atom on the lattice point) and 7 option profiles; the generic
+    # trigonal request 't' therefore also arrives with the basis check switched off on obverse and on reverse cells
+    # (refusal accepted, a result is judged).  A (conv -> prim -> conv) and B (prim -> conv -> prim) as in group 6.
+    OTAB = list(TAB) + list(gen.NONCONVENTIONAL_TABLE)
+    assert len(OTAB) == 31
+    for i in ctx.cases('conversions-options', ctx.pick(len(OTAB) * 14, len(OTAB) * 105)):
+        rng = ctx.rng
+        setting, basis, family = OTAB[i % 31]
+        nonconv = i % 31 >= len(TAB)
+        opts = C2P_OPTS[i % 7]
+        if opts.startswith('basis-off'):
+            mc = gen.MOTIF_CLASSES[i % 5]
+        else:
+            # basis check on: half the cells have the lattice-point atom it demands, a quarter the atom 1e-4 cell vectors off
+            # (passes only under 'loose-atol'), a quarter no such atom at all (documented refusal)
+            mc = ('corner+generic', 'near-corner', 'corner+generic', ('generic', 'face', 'fractions')[(i // 28) % 3])[(i // 7) % 4]
+        path = PATHS[(i // 31) % 3]
+        how = CONSTRUCT[(i // 2) % 4]
+        r = i // 31
+        begin_case()
+        nmotif, ntypes = 1 + (i // 5) % 3, 1 + (i // 3) % 2
+        oc = ALL5[(i // 7) % 5] if i % 2 else NEAR0[(i // 2) % 2]
+        conv = gen.gen_conventional(rng, basis, family, nmotif, ntypes, oc, mc)
+        mult = gen.multiplicity(basis)
+        kw = c2p_kwargs(rng, opts, conv, i)
+        checked = kw.get('check_basis', True)
+        rec.case(('conversion-options', setting, basis, family, mc, opts, path, how, oc), nontrivial=True,
+                 fp=fingerprint(conv['vects'], conv['origin'], conv['pos'], setting, opts, repr(kw.get('smallshift'))))
+        rec.count('class:convopt')
+        rec.count('class:convopt-setting-' + setting)
+        rec.count('class:convopt-motif-' + mc)
+        rec.count('class:convopt-opts-' + opts)
+        rec.count('class:convopt-path-' + path)
+        rec.count('class:convopt-construct-' + how)
+        rec.count('class:origin-' + oc)
+        if nonconv:
+            rec.count('class:convopt-nonconventional-family')
+        if not conv['site_atom']:
+            rec.count('class:convopt-no-atom-on-lattice-point')
+            if not checked:
+                rec.count('class:convopt-no-atom-on-lattice-point:basis-off')
+                rec.count('class:convopt-no-atom-on-lattice-point:basis-off:' + setting)
+        if nmotif == 1 and not conv["site_atom"]:
+            rec.count('class:convopt-one-atom-primitive-off-lattice-point')
+        if setting == 't' and not checked:
+            rec.count('class:convopt-t-unchecked-on-' + basis)
+        if 'smallshift' in kw:
+            rec.count('class:convopt-smallshift-' + SHIFT_FORMS[(i // 7) % len(SHIFT_FORMS)])
+        if r < 1 and i % 5 == 1:
+            rec.sample(dict(entry='conversion-options', setting=setting, basis=basis, family=family, motif=mc, options=repr(kw),
+                            path=path, vects=conv['vects'], origin=conv['origin'], rel=conv['rel'], atype=conv['atype']))
+        STATE['cls'] = f'{setting}/{family}/{mc}/{opts}'
+        dd = dict(setting=setting, basis=basis, family=family, motif=mc, options=repr(kw), path=path, construct=how)
+        refusals = []
+        if checked:
+            refusals.append(REFUSE_BASIS)           # documented: the check demands atoms of one type on the lattice points
+        elif setting == 't':
+            refusals.append(REFUSE_T)
+        # A: conventional -> primitive -> conventional
+        cs = construct(am, conv, how)
+        outA = convert(rec, am, 'c2p', cs, setting, mult, kw, path, dd, refusals)
+        if outA is None and STATE['refused']:
+            rec.count('convopt:c2p-refused')
+        if outA is not None:
+            ps, T1, before = outA
+            rec.count('convopt:c2p-judged')
+            rec.count('convopt:c2p-judged-' + opts)
+            if not conv['site_atom']:
+                rec.count('convopt:c2p-judged-no-atom-on-lattice-point')
+            if nonconv:
+                rec.count('convopt:c2p-judged-nonconventional-family')
+            if setting == 't':
+                rec.count('convopt:c2p-judged-t' + ('' if checked else '-unchecked'))
+            if i % 3 == 0:
+                # the same call again without return_transform: the system alone, the same value
+                kws = dict(kw, setting=setting)
+                again = attempt(rec, 'conventional_to_primitive repeated without return_transform', 'c2p:exception',
+                                lambda: call_style(am, 'c2p', cs, path, kws), chain='c2p')
+                if again is not None:
+                    rec.check(not isinstance(again, tuple), 'conventional_to_primitive: without return_transform the system alone is returned',
+                              'c2p:return')
+                    if not isinstance(again, tuple):
+                        same_result(rec, 'c2p:repeat', 'conventional_to_primitive: the same call repeated (without return_transform) returns '
+                                    'the same cell', snapshot(ps), snapshot(again), **dd)
+            back = convert(rec, am, 'p2c', ps, basis, mult, {}, PATHS[(i // 31 + 1) % 3], dd,
+                           roundtrip=(before, T1, 'roundtrip:c2p-p2c', 'p2c(c2p(x)) = x'))
+            if back is not None:
+                rec.count('convopt:roundtrip-c2p-p2c')
+                if not conv['site_atom']:
+                    rec.count('convopt:roundtrip-c2p-p2c-no-atom-on-lattice-point')
+                rec.close(1e-7 * conv['L'], np.asarray(back[0].box.vects), before['vects'],
+                          'p2c(c2p(x)) has the cell vectors of x (x in LAMMPS orientation)', 'roundtrip:c2p-p2c:vects', **dd)
+        # B: primitive -> conventional -> primitive
+        prim = gen.primitive_of(conv, rng, ('raw', 'rotated')[r % 2])
+        ps = construct(am, prim, how)
+        dd = dict(dd, orientation=prim['orientation'])
+        outB = convert(rec, am, 'p2c', ps, basis, mult, {}, path, dd, offset=origin_offset(prim['vects'], prim['origin']))
+        if outB is not None:
+            c2, T1, before = outB
+            cv = np.asarray(c2.box.vects)
+            rec.close(1e-7 * conv['L'] ** 2, cv @ cv.T, conv['vects'] @ conv['vects'].T,
+                      'primitive_to_conventional: the result is the conventional cell of the lattice (Gram matrix)', 'p2c:gram', **dd)
+            if i % 3 == 1:
+                again = attempt(rec, 'primitive_to_conventional repeated without return_transform', 'p2c:exception',
+                                lambda: call_style(am, 'p2c', ps, path, dict(setting=basis)), chain='p2c')
+                if again is not None and not isinstance(again, tuple):
+                    same_result(rec, 'p2c:repeat', 'primitive_to_conventional: the same call repeated (without return_transform) returns '
+                                'the same cell', snapshot(c2), snapshot(again), **dd)
+            # p2c re-bases the cell at a zero origin: whether an atom sits on ITS lattice point is not known here, so the
+            # basis refusal is accepted whenever the check is on
+            back = convert(rec, am, 'c2p', c2, setting, mult, kw, PATHS[(i // 31 + 2) % 3], dd, refusals,
+                           roundtrip=(before, T1, 'roundtrip:p2c-c2p', 'c2p(p2c(x)) = x'))
+            if back is not None:
+                rec.count('convopt:roundtrip-p2c-c2p')
+                if not checked:
+                    rec.count('convopt:roundtrip-p2c-c2p-basis-off')
+        end_case(rec, 'conversion')
+        STATE['cls'] = None
+
+    # -- 6d. conversions: refusals ------------------------------------------------------------------------
+    # A cell whose atoms do NOT have the requested centring (primitive motif, or different types on the centring sites)
+    # holds no primitive cell of 1/multiplicity the size: conventional_to_primitive (checks on) must refuse it.  The
+    # documented ValueError for a smallshift that is not a 3-vector and for a setting name that does not exist (both
+    # styles, basis check on and off).
+    CREF = ('basis-mismatch', 'types-differ-on-centring-sites', 'smallshift-not-a-3-vector', 'unknown-setting:c2p',
+            'unknown-setting:c2p-basis-off', 'unknown-setting:p2c')
+    CSET = ('i', 'f', 'a', 'b', 'c', 't1', 't2', 't')
+    for i in ctx.cases('conversion-refusals', ctx.pick(96, 480)):
+        rng = ctx.rng
+        kind = CREF[i % len(CREF)]
+        s_ = CSET[(i // len(CREF)) % len(CSET)]
+        b_ = {'t': ('t1', 't2')[(i // 48) % 2]}.get(s_, s_)
+        fams = gen.COMPATIBLE[b_]
+        family = fams[(i // 7) % len(fams)]
+        oc = NEAR0[(i // 2) % 2]
+        path = PATHS[(i // 3) % 3]
+        kw = {}
+        style = 'p2c' if kind.endswith('p2c') else 'c2p'
+        if kind == 'basis-mismatch':
+            conv = gen.gen_conventional(rng, 'p', family, 1 + i % 3, 1 + i % 2, oc)
+        else:
+            conv = gen.gen_conventional(rng, b_, family, 1 + i % 2, 2, oc)
+        req = s_
+        if kind == 'types-differ-on-centring-sites':
+            at = np.array(conv['atype']).copy()
+            at[conv['nmotif']] = at[0] % 2 + 1                  # first centring image of the lattice-point atom: the other type
+            sym = tuple(conv['symbols']) if len(conv['symbols']) > 1 else tuple(conv['symbols']) + ('W',)
+            conv = dict(conv, atype=at, symbols=sym)
+        elif kind == 'smallshift-not-a-3-vector':
+            kw['smallshift'] = [[0.001, 0.001], [0.001] * 4, 0.001, [[0.001, 0.001, 0.001]], np.full((3, 1), 0.001)][(i // 6) % 5]
+        elif kind.startswith('unknown-setting'):
+            req = ('x', 'q', '', 'pp', 'r', 'F', 't3', 'h')[(i // 6) % 8]
+            if kind.endswith('basis-off'):
+                kw['check_basis'] = False
+        cell_ = gen.primitive_of(conv, rng, 'raw') if style == 'p2c' else conv
+        cs = build_system(am, cell_)
+        rec.case(('conversion-refusal', kind, s_, family, path), nontrivial=True, fp=fingerprint(cell_['vects'], cell_['pos'], req, kind))
+        rec.count('class:conv-refusal-' + kind)
+        STATE['cls'] = 'refusal:' + kind
+        kws = dict(kw, setting=req, return_transform=True)
+        g = ctx.guard(f'{STYLE[style]} refuses ({kind}) with ValueError', style + ':refusal:' + kind, accept=(ValueError,))
+        with g, entry(style):
+            call_style(am, style, cs, path, kws)
+        del STATE['chain'][:]
+        if g.exc is None:
+            rec.fail(f'{STYLE[style]} refuses: {kind}', style + ':not-refused:' + kind, setting=req, basis=conv['basis'], family=family,
+                     options=repr(kw))
+        else:
+            rec.count('conv-refusal:raised')
+        STATE['cls'] = None
+
+    # -- 6e. call histories, every entry point ------------------------------------------------------------
+    # result r1 of a call on system A is kept (plain copies); then something happens - the caller writes all over r1,
+    # another instance B is processed with customised options, the argument OBJECTS are edited in place and used again,
+    # system A itself is edited in place and processed again -; then r1 is looked at again (unless it was scribbled on), A
+    # is compared with what it was, and the first call repeated on a fresh equal system must return the same value.  Each
+    # call is judged against its own input by the monitors / the call-site judge.  The four construction paths, six
+    # further argument forms of rotate (tuple of tuples, int8 / int16 / float32 arrays, list of row arrays, Fortran-ordered
+    # floats) and its tol option (float, list, tuple, array) are stratified here too.
+    ENTRY = ('supersize', 'rotate', 'c2p', 'p2c')
+    BETWEEN = ('scribble-result', 'other-instance', 'edited-arguments', 'edited-system')
+    UFORMS = ('int64-array', 'tuple', 'int8-array', 'float32-array', 'int16-array', 'list-of-rows', 'fortran-float-array')
+    TOLS = (None, 'float', 'list', 'tuple', 'array')
+
+    def uform(M, form):
+        M = np.asarray(M)
+        if form == 'tuple':
+            return tuple(tuple(int(x) for x in r_) for r_ in M.tolist())
+        if form == 'list-of-rows':
+            return [np.array(r_) for r_ in M]
+        if form == 'fortran-float-array':
+            return np.asfortranarray(M.astype(float))
+        return M.astype({'int64-array': np.int64, 'int8-array': np.int8, 'float32-array': np.float32, 'int16-array': np.int16}[form])
+
+    def tolarg(kind):
+        return {None: None, 'float': 1e-5, 'list': [1e-4, 1e-5, 1e-6, 1e-7], 'tuple': (1e-5, 1e-6, 1e-7), 'array': np.array([1e-4, 1e-6])}[kind]
+
+    REFUSE_TOL = (ValueError, 'Filtering failed', 'rotate: caller-chosen tol list finds no consistent atom count (documented)')
+
+    for i in ctx.cases('histories', ctx.pick(480, 2400)):
+        rng = ctx.rng
+        ep = ENTRY[i % 4]
+        btw = BETWEEN[(i // 4) % 4]
+        how = CONSTRUCT5[(i // 16) % 5] if ep in ('supersize', 'rotate') else CONSTRUCT[(i // 16) % 4]
+        begin_case()
+        # ---- the cell and the (mutable) argument objects of the call
+        row = OTAB[(i // 4) % 31]
+        mc = gen.MOTIF_CLASSES[(i // 4) % 5]
+        oc = ALL5[(i // 4) % 5] if ep in ('c2p', 'p2c') or (i // 4) % 3 else NEAR0[(i // 8) % 2]
+        if ep in ('c2p', 'p2c'):
+            setting, basis, family = row
+            if setting == 't':
+                setting = basis
+            conv = gen.gen_conventional(rng, basis, family, 1 + (i // 8) % 3, 1 + (i // 4) % 2, oc, mc)
+            convB = gen.gen_conventional(rng, basis, family, conv['nmotif'], len(conv['symbols']), oc, gen.MOTIF_CLASSES[(i // 4 + 2) % 5])
+            u = conv if ep == 'c2p' else gen.primitive_of(conv, rng, 'raw')
+            uB = convB if ep == 'c2p' else gen.primitive_of(convB, rng, 'rotated')
+            mult = gen.multiplicity(basis)
+            L = conv['L']
+        else:
+            kind = cells.KINDS[(i // 4) % 9]
+            u = gen.gen_unit_cell(rng, kind, oc, 1.0, 1 + (i // 4) % 5, 1 + (i // 12) % 3, gen.POS_CLASSES[(i // 4) % 5])
+            uB = gen.gen_unit_cell(rng, kind, oc, 1.0, u['natoms'], u['ntypes'], gen.POS_CLASSES[(i // 4 + 1) % 5])
+            L = u['L']
+        form = UFORMS[(i // 4) % 7]
+        tolk = TOLS[(i // 28) % 5]
+
+        def make_args(second=False):
+            """argument objects of one call: dict(name -> object); ``second``: other (customised) values"""
+            if ep == 'supersize':
+                return dict(specs=gen.gen_multipliers(rng, gen.MULT_CLASSES[(i // 4 + 3 * second) % len(gen.MULT_CLASSES)], max_images=27))
+            if ep == 'rotate':
+                M = gen.sample_matrix(rng, 2 if (i // 4) % 2 else 1, 1 if (i // 8 + second) % 2 else -1, max_det=12)
+                return dict(uvws=uform(M, form if not second else 'int64-array'), tol=tolarg(tolk if not second else 'list'))
+            if ep == 'c2p':
+                kw_ = dict(check_basis=False)
+                if second or (i // 16) % 2:
+                    kw_['smallshift'] = gen_smallshift(rng, 'float-array')
+                if second:
+                    kw_['rtol'], kw_['atol'] = 1e-3, 1e-4 * L
+                return kw_
+            return {}
+
+        def invoke(s, a, key):
+            """one call of the entry point -> (result system, T or None) or None"""
+            if ep == 'supersize':
+                out = attempt(rec, 'supersize accepts documented multipliers', 'supersize:exception', lambda: s.supersize(*a['specs']))
+                return None if out is None else (out, None)
+            if ep == 'rotate':
+                kw_ = {} if a['tol'] is None else dict(tol=a['tol'])
+                out = attempt(rec, 'rotate accepts integer vector sets of non-zero determinant', 'rotate:exception:histories',
+                              lambda: s.rotate(a['uvws'], return_transform=True, **kw_),
+                              offset=origin_offset(np.asarray(s.box.vects), np.asarray(s.box.origin)),
+                              refusals=() if a['tol'] is None else (REFUSE_TOL,))
+                return None if out is None else (out[0], np.asarray(out[1]))
+            out = convert(rec, am, ep, s, setting if ep == 'c2p' else basis, mult, a, PATHS[(i // 4) % 3],
+                          dict(history=btw, construct=how, setting=setting, family=family, motif=mc))
+            return None if out is None else (out[0], out[1])
+
+        def arg_arrays(a):
+            out = {}
+            for k, v in a.items():
+                if isinstance(v, np.ndarray):
+                    out['argument ' + k] = v
+                elif isinstance(v, list) and v and isinstance(v[0], np.ndarray):
+                    for n_, x in enumerate(v):
+                        out[f'argument {k}[{n_}]'] = x
+            return out
+
+        def frozen(a):
+            import copy
+            return copy.deepcopy(a)
+
+        def args_equal(a, b):
+            return repr(a) == repr(b)
+
+        rec.case(('history', ep, btw, how, form if ep == 'rotate' else '', tolk if ep == 'rotate' else ''), nontrivial=True,
+                 fp=fingerprint(u['vects'], u['origin'], u['pos'], ep, btw))
+        rec.count('class:history')
+        rec.count('class:history-' + ep)
+        rec.count('class:history-' + btw)
+        rec.count('class:history-' + ep + ':' + btw)
+        rec.count('class:history-construct-' + how)
+        rec.count('class:history-construct-' + how + ':' + ep)
+        if ep == 'rotate':
+            rec.count('class:rotate-form-' + form)
+            rec.count('class:rotate-tol-' + str(tolk))
+        count_cell_classes(rec, u) if ep in ('supersize', 'rotate') else rec.count('class:origin-' + oc)
+        STATE['cls'] = f'history:{ep}:{btw}:{how}'
+        key = ep + ':history'
+        sA = construct(am, u, how)
+        beforeA = snapshot(sA)
+        a1 = make_args()
+        a1_kept = frozen(a1)
+        r1 = invoke(sA, a1, key)
+        if r1 is None:
+            rec.count('history:first-call-refused')
+            end_case(rec, 'history')
+            STATE['cls'] = None
+            continue
+        res1, T1 = r1
+        snap1, T1c = snapshot(res1), None if T1 is None else np.array(T1, copy=True)
+        rec.check(args_equal(a1, a1_kept), f'{ep}: the caller\'s argument objects are not modified', key + ':argument-modified',
+                  before=repr(a1_kept), after=repr(a1))
+        no_aliasing(rec, key, ep, res1, T1, dict(arrays_of(sA), **arg_arrays(a1)), history=btw)
+        dh = dict(history=btw, construct=how, entry=ep)
+        if btw == 'scribble-result':
+            scribble(res1, T1)
+            diff = unmodified(beforeA, snapshot(sA))
+            rec.check(diff is None, f'{ep}: writing into the returned system / transformation does not change the input system',
+                      key + ':result-aliases-input', diff=diff, **dh)
+            rec.check(args_equal(a1, a1_kept), f'{ep}: writing into the returned system / transformation does not change the arguments',
+                      key + ':result-aliases-argument', before=repr(a1_kept), after=repr(a1))
+            rec.count('history:scribbled')
+        else:
+            if btw == 'other-instance':
+                sB = construct(am, uB, CONSTRUCT[(i // 16 + 1) % 4])          # another construction path than A's
+                r2 = invoke(sB, make_args(second=True), key)
+            elif btw == 'edited-arguments':
+                a2 = make_args(second=True)
+                for k_ in list(a1):                              # the same objects, new contents where the object is mutable
+                    if isinstance(a1[k_], np.ndarray) and isinstance(a2.get(k_), np.ndarray) and a1[k_].shape == a2[k_].shape:
+                        a1[k_][...] = a2[k_]
+                    elif isinstance(a1[k_], list) and isinstance(a2.get(k_), list):
+                        a1[k_][:] = a2[k_]
+                    elif k_ in a2:
+                        a1[k_] = a2[k_]
+                r2 = invoke(sA, a1, key)
+            else:
+                # system A edited in place: atoms moved rigidly by a generic vector, two per-atom values changed, cell scaled
+                sA.atoms.view['pos'][...] += rng.uniform(0.05, 0.3, 3) @ np.asarray(sA.box.vects)
+                sA.atoms.view['idn'][...] += 1000
+                sA.box_set(vects=np.asarray(sA.box.vects) * 1.03125, origin=np.asarray(sA.box.origin), scale=True)
+                sA.wrap()
+                r2 = invoke(sA, a1, key)
+            rec.count('history:second-call' + ('' if r2 is not None else '-refused'))
+            same_result(rec, key + ':earlier-result-changed', f'{ep}: the result of an earlier call is not changed by a later call '
+                        f'({btw})', snap1, snapshot(res1), T1c, T1, **dh)
+        # the first call again, on a fresh equal system with fresh equal arguments
+        r3 = invoke(construct(am, u, how), frozen(a1_kept), key)
+        if r3 is not None:
+            same_result(rec, key + ':repeat', f'{ep}: the same call on an equal system gives the same value whatever happened in between '
+                        f'({btw})', snap1, snapshot(r3[0]), T1c, r3[1], **dh)
+            rec.count('history:repeated')
+        end_case(rec, 'history')
+        STATE['cls'] = None
+
     # -- coverage --------------------------------------------------------------------------------------
     for k, v in monitor.calls.items():
         if isinstance(v, int):
@@ -966,6 +1639,68 @@ def run(ctx):
     rec.count('reach:p2c-dump', cover.hits('atomman/dump/primitive_to_conventional/dump.py', 50, 70))
 
     rec.floor('selfcheck', 40)
+    rec.floor('class:rotate-near-face-ladder', 36)
+    rec.floor('class:rotate-near-face-ladder:in-class', 30)
+    # round 4: option combinations / motif classes / call paths / construction paths of the conversions, their refusals, and
+    # call histories of every entry point (floors are for the quick tier: 434 + 96 + 480 cases)
+    rec.floor('class:convopt', 434)
+    for s_ in ('p', 'i', 'f', 'a', 'b', 'c', 't1', 't2', 't'):
+        rec.floor('class:convopt-setting-' + s_, 28)
+    for m_, n_ in zip(gen.MOTIF_CLASSES, (150, 50, 50, 95, 50)):
+        rec.floor('class:convopt-motif-' + m_, n_)
+    for o_, n_ in zip(C2P_OPTS, (55, 55, 20, 55, 28, 42, 20)):
+        rec.floor('class:convopt-opts-' + o_, 60)
+        rec.floor('convopt:c2p-judged-' + o_, n_)
+    for p_ in PATHS:
+        rec.floor('class:convopt-path-' + p_, 120)
+    for c_ in CONSTRUCT5:
+        if c_ in CONSTRUCT:
+            rec.floor('class:convopt-construct-' + c_, 100)
+        rec.floor('class:history-construct-' + c_, 48)
+        for e_ in ('supersize', 'rotate', 'c2p', 'p2c'):
+            if c_ in CONSTRUCT or e_ in ('supersize', 'rotate'):
+                rec.floor('class:history-construct-' + c_ + ':' + e_, 24)
+    for f_ in SHIFT_FORMS:
+        rec.floor('class:convopt-smallshift-' + f_, 10)
+    rec.floor('class:convopt-nonconventional-family', 120)
+    rec.floor('class:convopt-no-atom-on-lattice-point', 260)
+    rec.floor('class:convopt-no-atom-on-lattice-point:basis-off', 140)
+    for s_ in ('p', 'i', 'f', 'a', 'b', 'c', 't1', 't2'):
+        rec.floor('class:convopt-no-atom-on-lattice-point:basis-off:' + s_, 8)
+    rec.floor('class:convopt-one-atom-primitive-off-lattice-point', 80)
+    rec.floor('class:convopt-t-unchecked-on-t1', 6)
+    rec.floor('class:convopt-t-unchecked-on-t2', 6)
+    rec.floor('convopt:c2p-judged', 280)
+    rec.floor('convopt:c2p-judged-no-atom-on-lattice-point', 145)
+    rec.floor('convopt:c2p-judged-nonconventional-family', 70)
+    rec.floor('convopt:c2p-judged-t', 6)
+    rec.floor('convopt:c2p-refused', 120)
+    rec.floor('convopt:roundtrip-c2p-p2c', 280)
+    rec.floor('convopt:roundtrip-c2p-p2c-no-atom-on-lattice-point', 145)
+    rec.floor('convopt:roundtrip-p2c-c2p', 280)
+    rec.floor('convopt:roundtrip-p2c-c2p-basis-off', 165)
+    rec.floor('same:c2p:repeat', 80)
+    rec.floor('same:p2c:repeat', 120)
+    for k_ in ('basis-mismatch', 'types-differ-on-centring-sites', 'smallshift-not-a-3-vector', 'unknown-setting:c2p',
+               'unknown-setting:c2p-basis-off', 'unknown-setting:p2c'):
+        rec.floor('class:conv-refusal-' + k_, 16)
+    rec.floor('conv-refusal:raised', 96)
+    rec.floor('class:history', 480)
+    for e_ in ('supersize', 'rotate', 'c2p', 'p2c'):
+        rec.floor('class:history-' + e_, 120)
+        rec.floor('alias:checked:' + e_, 100)
+        rec.floor('same:' + e_ + ':history:repeat', 100)
+        rec.floor('same:' + e_ + ':history:earlier-result-changed', 75)
+        for b_ in ('scribble-result', 'other-instance', 'edited-arguments', 'edited-system'):
+            rec.floor('class:history-' + e_ + ':' + b_, 28)
+    rec.floor('history:scribbled', 100)
+    rec.floor('history:second-call', 330)
+    rec.floor('history:repeated', 450)
+    for f_ in ('tuple', 'int8-array', 'float32-array', 'int16-array', 'list-of-rows', 'fortran-float-array'):
+        rec.floor('class:rotate-form-' + f_, 14)
+    for t_ in ('None', 'float', 'list', 'tuple', 'array'):
+        rec.floor('class:rotate-tol-' + t_, 14)
+    rec.floor('precision:judged', 2 * N_ENUM1 + 2000)
     # one crystal, every description (left-/right-handed vector sets and unit cells x origin classes x atoms on faces)
     rec.floor('class:family', 1260)
     for oc_ in ALL5:
